@@ -52,8 +52,19 @@ void ares_tvnow(ares_timeval_t *now)
 
 #elif defined(HAVE_CLOCK_GETTIME_MONOTONIC)
 
+#ifdef CARES_VERIF_HOOKS
+/* verification hook: virtual clock */
+void (*ares_verif_clock_cb)(ares_timeval_t *now) = NULL;
+#endif
+
 void ares_tvnow(ares_timeval_t *now)
 {
+#ifdef CARES_VERIF_HOOKS
+  if (ares_verif_clock_cb != NULL) {
+    ares_verif_clock_cb(now);
+    return;
+  }
+#endif
   /* clock_gettime() is guaranteed to be increased monotonically when the
    * monotonic clock is queried. Time starting point is unspecified, it
    * could be the system start-up time, the Epoch, or something else,
